@@ -14,6 +14,7 @@ from . import cursors, utils  # noqa
 
 SESSION_FACTORY = None
 YIELD = False
+TX_ENDS = 0    # number of Connection.commit()/rollback() calls so far (harnesses step handlers transaction by transaction)
 
 
 async def _maybe_yield():
@@ -45,9 +46,15 @@ class Cursor:
         return rc
 
     async def executemany(self, sql, args_array):
-        n = 0
-        for a in args_array:
-            n += await self.execute(sql, a)
+        # aiomysql sends INSERT ... VALUES executemany as ONE multi-row statement: atomic when the session supports it
+        em = getattr(self._conn._session, "executemany", None)
+        if em is not None:
+            await _maybe_yield()
+            n = em(sql, list(args_array))
+        else:
+            n = 0
+            for a in args_array:
+                n += await self.execute(sql, a)
         self.rowcount = n
         return n
 
@@ -80,12 +87,16 @@ class Connection:
         return Cursor(self)
 
     async def commit(self):
+        global TX_ENDS
         await _maybe_yield()
         self._session.commit()
+        TX_ENDS += 1
 
     async def rollback(self):
+        global TX_ENDS
         await _maybe_yield()
         self._session.rollback()
+        TX_ENDS += 1
 
     def close(self):
         self._session.close()
